@@ -32,7 +32,7 @@ impl RecordsBounds {
 
         let end = if key_is_exact {
             Bound::Included(start.clone())
-        } else if increment_by_one(&mut key_end) {
+        } else if increment_prefix(&mut key_end) {
             Bound::Excluded((ns, author, key_end.into()))
         } else if increment_by_one(&mut author_end) {
             Bound::Excluded((ns, author_end, Bytes::new()))
@@ -116,7 +116,7 @@ impl ByKeyBounds {
 
                 let mut ns_end = ns.to_bytes();
                 let mut key_end = prefix.to_vec();
-                let end = if increment_by_one(&mut key_end) {
+                let end = if increment_prefix(&mut key_end) {
                     Bound::Excluded((ns.to_bytes(), key_end.into(), [0u8; 32]))
                 } else if increment_by_one(&mut ns_end) {
                     Bound::Excluded((ns_end, Bytes::new(), [0u8; 32]))
@@ -170,6 +170,26 @@ fn increment_by_one(value: &mut [u8]) -> bool {
         }
     }
     false
+}
+
+/// Turn a variable-length key prefix into the smallest byte string that is greater than every
+/// byte string starting with the prefix: drop trailing 255 bytes, then increment the last byte.
+///
+/// Unlike [`increment_by_one`] this never carries into a shorter string's successor: the end of
+/// the prefix `[1, 255]` is `[2]`, not `[2, 0]` (which would wrongly include the key `[2]`).
+///
+/// Returns false if there is no such string (empty or all-255 prefix).
+fn increment_prefix(value: &mut Vec<u8>) -> bool {
+    while value.last() == Some(&255) {
+        value.pop();
+    }
+    match value.last_mut() {
+        Some(last) => {
+            *last += 1;
+            true
+        }
+        None => false,
+    }
 }
 
 fn map_bound<'a, T, U: 'a>(bound: &'a Bound<T>, f: impl Fn(&'a T) -> U) -> Bound<U> {
